@@ -4,7 +4,7 @@ from runner import Stream
 import vlib, gen_manifest, fuzzgen, render
 from parsers_common import model_lines, pkgs_of, norm_py
 
-PROP_MODULES = ["Vlsp.Props.C04"]
+PROP_MODULES = ["Vlsp.Props.C04", "Vlsp.Props.C04Layout"]
 RULE = ("(a) the seven Parser::parse implementations vs the Lean parser models run on the SAME syntax tree (the tree tree-sitter really "
         "produces, dumped by the harness; go.mod: raw text; PEP 508 answers of the real library as an input): rendered manifests under "
         "every layout choice plus grammar-aware mutations; (b) the property itself on the implementation: manifests rendered from an "
@@ -138,6 +138,18 @@ def streams(ctx):
 
     def derive_b(cs, impl):
         der = []
+        # the premise of the layout theorems (c04_npm_layout_invariant, c04_deno_layout_invariant) on REAL trees: a manifest and
+        # its re-rendering under another layout read as the same abstract JSON (escapes excluded: they change the string text, F-C04-6)
+        pairs = [i for i in range(0, len(meta) - 1, 2) if meta[i][0] in ("npm", "jsr") and not meta[i][2]["escape"] and not meta[i + 1][2]["escape"]
+                 and meta[i][2]["nonascii"] == meta[i + 1][2]["nonascii"]]      # (the renderer's "nonascii" option edits the manifest's own name VALUE)[: (150 if quick else 4000)]
+        idxs = [j for i in pairs for j in (i, i + 1)]
+        dumps = vlib.run_impl([vlib.line("ts.dump", meta[j][0], meta[j][3]) for j in idxs])
+        absr = vlib.run_model([vlib.line("x.abs", meta[j][0], meta[j][3], d) for j, d in zip(idxs, dumps)])
+        for k, i in enumerate(pairs):
+            a1, a2 = absr[2 * k], absr[2 * k + 1]
+            if a1 != a2 or a1 == "-":
+                der.append({"req": vlib.line("ml.settle"), "index": i, "history": [cs[i]["req"], cs[i + 1]["req"]],
+                            "check": (lambda out, a1=a1, a2=a2: ("model", f"re-rendering changed the abstract reading of the tree: {a1[:200]} vs {a2[:200]}"))})
         for i, ((eco, deps, L, text, decl, which), o) in enumerate(zip(meta, impl)):
             if o.startswith(("PANIC", "ABORT", "HANG")):
                 continue
